@@ -430,7 +430,7 @@ class _G:
             return ["str", self.pick(["zfill", "center", "ljust"]), x, [r.randint(1, 4)], {}], "str"
         if w < 0.80:
             self.uses_meta = True
-            return [self.pick(["map", "apply"]), x, {"func": self.pick(["f_tag", "f_first"])}, "object"], "str"
+            return [self.pick(["map", "apply"]), x, {"func": self.pick(["f_tag", "f_first"])}, "str"], "str"
         if w < 0.88:
             cond, _ = self.boolean(cols, depth + 1, leaf)
             return [self.pick(["where", "mask"]), x, cond, ["lit", "?"]], "str"
@@ -479,7 +479,7 @@ class _G:
                     vals = self.pick([[10, 11, 12, 13, 14], ["X", "Y", "Z", "W", "XY"], [0.5, 1.5, 2.5, 3.5, 4.5]])
                     out = kind_of_dtype(pd.Series(vals).dtype)
                     self.uses_meta = True
-                    return ["map", x, {"dict": [[a, b] for a, b in zip(DOMAIN["b"], vals)]}, DTYPE_OF[out] if out != "str" else "object"], out, "map"
+                    return ["map", x, {"dict": [[a, b] for a, b in zip(DOMAIN["b"], vals)]}, DTYPE_OF[out]], out, "map"
             e, kk = self.boolean(cols, 0, leaf)
             return e, kk, "cmp"
         if k == "dt":
@@ -511,7 +511,7 @@ class _G:
             if w < 0.65:
                 return ["catm", "as_known", x, []], "cat", "cat"
             if w < 0.72:
-                return ["catm", "as_unknown", x, []], "cat", "cat"
+                return ["catm", "as_unknown", x, []], "ucat", "cat"
             if w < 0.80:
                 return ["catm", "add_categories", x, [["extra"]]], "cat", "cat"
             if w < 0.86:
@@ -737,8 +737,8 @@ class _G:
                             "frame-cmp:%s:%s" % (rhs["kind"], style))
 
     _ASTYPE = {"int": ["float64", "Int64", "str", "category", "bool", "int32"], "float": ["int64", "Int64", "str", "float32"],
-               "bool": ["int64", "float64", "boolean", "str"], "str": ["category", "object"],
-               "cat": ["str", "object"], "Int": ["float64", "int64", "str"], "boolean": ["bool", "float64", "Int64"],
+               "bool": ["int64", "float64", "boolean", "str"], "str": ["category"],
+               "cat": ["str"], "Int": ["float64", "int64", "str"], "boolean": ["bool", "float64", "Int64"],
                "dt": ["str", "datetime64[s]"]}
 
     @staticmethod
@@ -870,7 +870,7 @@ class _G:
         else:
             return None
         self.uses_meta = True
-        st = {"op": "apply_rows", "func": fn, "args": [x, y], "meta": DTYPE_OF[out] if out != "str" else "object"}
+        st = {"op": "apply_rows", "func": fn, "args": [x, y], "meta": DTYPE_OF[out]}
         return self._commit_series(st, "apply:axis1", out)
 
     def s_rename(self):
@@ -1000,18 +1000,24 @@ def gen_pipeline(rng, ncols_info=None, nops=None, allow_other=True):
 
 # --------------------------------------------------------------------------- evaluation
 class _Env:
-    __slots__ = ("is_dask", "other", "self_")
+    __slots__ = ("is_dask", "other", "self_", "full_meta")
 
-    def __init__(self, is_dask, other):
+    def __init__(self, is_dask, other, full_meta=False):
         self.is_dask = is_dask
         self.other = other
         self.self_ = None
+        self.full_meta = full_meta
 
 
-def _meta_kw(env, x, dtype):
+def _meta_kw(env, x, dtype, name=False):
+    """meta= for user functions: the documented (name, dtype) tuple, or - full_meta - an empty pandas Series that also
+    carries the index of the input (a tuple cannot say anything about the index)."""
     if not env.is_dask:
         return {}
-    return {"meta": (x.name, dtype)}
+    nm = x.name if name is False else name
+    if env.full_meta:
+        return {"meta": pd.Series([], dtype=dtype, name=nm, index=x._meta.index[:0])}
+    return {"meta": (nm, dtype)}
 
 
 def ev(e, df, env):
@@ -1100,10 +1106,11 @@ _ANAMES = {"+": "add", "-": "sub", "*": "mul", "/": "truediv", "//": "floordiv",
 _CNAMES = {"<": "lt", "<=": "le", ">": "gt", ">=": "ge", "==": "eq", "!=": "ne"}
 
 
-def apply(description, frame, is_dask, other=None, upto=None):
+def apply(description, frame, is_dask, other=None, upto=None, full_meta=False):
     """Run the steps of `description` on `frame` (dask collection when is_dask else pandas).  `other` is the second
-    frame needed when description["uses_other"]; `upto` limits the run to the first `upto` steps."""
-    env = _Env(is_dask, other)
+    frame needed when description["uses_other"]; `upto` limits the run to the first `upto` steps; `full_meta` passes
+    complete pandas objects (with index) as meta= of user functions instead of (name, dtype) tuples."""
+    env = _Env(is_dask, other, full_meta)
     states = [frame]
     cur = frame
     steps = description["steps"] if upto is None else description["steps"][:upto]
@@ -1160,8 +1167,7 @@ def apply(description, frame, is_dask, other=None, upto=None):
                 kw["upper"] = st["upper"]
             cur = cur.clip(**kw)
         elif op == "apply_rows":
-            kw = {"meta": (None, st["meta"])} if is_dask else {}
-            cur = cur.apply(FUNCS[st["func"]], axis=1, args=tuple(st["args"]), **kw)
+            cur = cur.apply(FUNCS[st["func"]], axis=1, args=tuple(st["args"]), **_meta_kw(env, cur, st["meta"], name=None))
         elif op == "rename":
             cur = cur.rename(columns=dict(st["columns"]))
         elif op == "series":
